@@ -21,6 +21,12 @@ CUSTOM_TEXT = {
     'ms': ('ms(r, A, rho)', 'var x := -r/rho ; var e := exp(x) ; A*e + 1/r'),
     # spellings of calls to built-in forms: blank before the bracket, upper case
     'wb': ('wb(r, A)', 'as.buck (r, A, 0.3, 1.0) + AS.Morse(r, 1.8, 2.0, 0.1)'),
+    # continued over three lines with end-of-line comments of the formula language on the first two
+    'cm': ('cm(r, A, rho)', 'A*exp(-r/rho)  // repulsion\n    - 3.0/r^6 # dispersion\n    + 0.5'),
+    # assigns to its own parameters (a unit conversion in place): every evaluation starts from the values given in the file
+    'conv': ('conv(r, D, a)', 'D := D*0.5; a := a + 0.1; D*exp(-a*r) + 1/r'),
+    # block syntax of the formula language
+    'br': ('br(r, A)', 'if (r > 1.0) { A*exp(-r); } else { A/exp(r); }'),
 }
 
 
@@ -48,6 +54,18 @@ def _c_ms(r, A, rho):
     return A * jexp(-r / rho) + 1.0 / r
 
 
+def _c_cm(r, A, rho):
+    return A * jexp(-r / rho) - 3.0 / r.ipow(6) + 0.5
+
+
+def _c_conv(r, D, a):
+    return (D * 0.5) * jexp(-(a + 0.1) * r) + 1.0 / r
+
+
+def _c_br(r, A):
+    return A * jexp(-r)
+
+
 def _c_wb(r, A):
     return F.buck(r, A, 0.3, 1.0) + F.morse(r, 1.8, 2.0, 0.1)
 
@@ -63,7 +81,7 @@ _env = None
 def env():
     global _env
     if _env is None:
-        _env = X.Env(custom={'mix': _c_mix, 'inner': _c_inner, 'qq': _c_qq, 'sf': _c_sf, 'inner2': _c_inner2, 'ms': _c_ms, 'wb': _c_wb, 'py_intfirst': _py_g, 'py_np0d': _py_f, 'py_np0d0': _py_f0, 'py_plain': _py_f, 'py_deriv': _py_f, 'py_both': _py_f},
+        _env = X.Env(custom={'mix': _c_mix, 'inner': _c_inner, 'qq': _c_qq, 'sf': _c_sf, 'inner2': _c_inner2, 'ms': _c_ms, 'wb': _c_wb, 'cm': _c_cm, 'conv': _c_conv, 'br': _c_br, 'py_abs': _py_abs, 'py_intfirst': _py_g, 'py_np0d': _py_f, 'py_np0d0': _py_f0, 'py_plain': _py_f, 'py_deriv': _py_f, 'py_both': _py_f},
                      tables={k: X.RefTable(*v) for k, v in TABLE_DATA.items()})
     return _env
 
@@ -122,6 +140,9 @@ def library():
         ('custom_shared', D({"custom": "sf", "params": [700.0, 0.4]}), {'numeric'}),
         ('custom_ms', D({"custom": "ms", "params": [650.0, 0.35]}), {'numeric'}),
         ('custom_spell', D({"custom": "wb", "params": [900.0]}), {'numeric'}),
+        ('custom_comments', D({"custom": "cm", "params": [700.0, 0.4]}), {'numeric'}),
+        ('custom_assign', D(mod('sum', {"custom": "conv", "params": [2.0, 0.7]}, {"custom": "conv", "params": [3.0, 0.7]})), {'numeric'}),
+        ('custom_braces', D(('>', 0.0, {"custom": "br", "params": [2.0]})), {'numeric'}),
         # hash(-1) == hash(-2) in CPython: parameter lists that differ only by -1 <-> -2 (formal charges of F and O) catch caches keyed by hash
         ('qq_m1', D({"custom": "qq", "params": [2, -1]}), {'numeric'}),
         ('qq_m2', D({"custom": "qq", "params": [2, -2]}), {'numeric'}),
@@ -157,6 +178,16 @@ def _py_f(r):          # reference (Jet) for all three python-only callables
 def _py_f0(r):         # regular at r = 0
     r = r if isinstance(r, Jet) else Jet.var(r)
     return 4.0 * jexp(-1.3 * r) + 0.05 * r * r
+
+
+PY_AX = 2.6137
+
+
+def _py_abs(r):        # 1.5 |r - x0|^3 + 0.3/r : twice differentiable, written with abs()
+    r = r if isinstance(r, Jet) else Jet.var(r)
+    x = r - PY_AX
+    s_ = 1.0 if x.v >= 0 else -1.0
+    return 1.5 * s_ * x * x * x + 0.3 / r
 
 
 PY_RC = 0.4371      # plateau radius of py_intfirst (not on any decimal grid)
@@ -205,7 +236,9 @@ def py_callables():
     def np0d0():
         import numpy
         return lambda r: numpy.array(4.0 * math.exp(-1.3 * r) + 0.05 * r * r)
-    return {'py_plain': (plain, _py_f, True), 'py_deriv': (with_deriv, _py_f, False), 'py_both': (with_both, _py_f, False),
+    def with_abs():
+        return lambda r: 1.5 * abs(r - PY_AX) ** 3 + 0.3 / r
+    return {'py_abs': (with_abs, _py_abs, True), 'py_plain': (plain, _py_f, True), 'py_deriv': (with_deriv, _py_f, False), 'py_both': (with_both, _py_f, False),
             'py_intfirst': (intfirst, _py_g, True), 'py_np0d': (np0d, _py_f, True), 'py_np0d0': (np0d0, _py_f0, True)}
 
 
